@@ -1,0 +1,170 @@
+package ftdc
+
+import (
+	"encoding/binary"
+
+	"github.com/pkg/errors"
+)
+
+// validateDocument checks that b is exactly one structurally valid
+// BSON document: every length field is consistent with the bytes
+// that are present, every element is complete and embedded documents
+// and arrays are valid in turn. The readers call it on all input
+// before handing the bytes to the bson library, which assumes
+// well-formed documents when it traverses them.
+func validateDocument(b []byte) error {
+	if len(b) < 5 {
+		return errors.New("bson document is too short")
+	}
+	if int64(int32(binary.LittleEndian.Uint32(b))) != int64(len(b)) {
+		return errors.New("bson document length does not match its contents")
+	}
+	if b[len(b)-1] != 0 {
+		return errors.New("bson document is not terminated")
+	}
+
+	rest := b[4 : len(b)-1]
+	for len(rest) > 0 {
+		t := rest[0]
+		if t == 0 {
+			return errors.New("bson document has data after its terminator")
+		}
+
+		keyLen := indexNul(rest[1:])
+		if keyLen < 0 {
+			return errors.New("bson element key is not terminated")
+		}
+		rest = rest[1+keyLen+1:]
+
+		n, err := validateValue(t, rest)
+		if err != nil {
+			return err
+		}
+		rest = rest[n:]
+	}
+
+	return nil
+}
+
+func indexNul(b []byte) int {
+	for i, c := range b {
+		if c == 0 {
+			return i
+		}
+	}
+	return -1
+}
+
+// validateLength reads a non-negative int32 length prefix.
+func validateLength(b []byte) (int, error) {
+	if len(b) < 4 {
+		return 0, errors.New("bson value is truncated")
+	}
+	l := int32(binary.LittleEndian.Uint32(b))
+	if l < 0 {
+		return 0, errors.New("bson value has a negative length")
+	}
+	return int(l), nil
+}
+
+// validateString checks a length prefixed, NUL terminated string and
+// returns its total size.
+func validateString(b []byte) (int, error) {
+	l, err := validateLength(b)
+	if err != nil {
+		return 0, err
+	}
+	if l < 1 || len(b)-4 < l || b[4+l-1] != 0 {
+		return 0, errors.New("bson string is malformed")
+	}
+	return 4 + l, nil
+}
+
+// validateValue returns the size of the value of type t at the start of b.
+func validateValue(t byte, b []byte) (int, error) {
+	fixed := func(n int) (int, error) {
+		if len(b) < n {
+			return 0, errors.New("bson value is truncated")
+		}
+		return n, nil
+	}
+
+	switch t {
+	case 0x01, 0x09, 0x11, 0x12: // double, datetime, timestamp, int64
+		return fixed(8)
+	case 0x02, 0x0D, 0x0E: // string, javascript, symbol
+		return validateString(b)
+	case 0x03, 0x04: // document, array
+		l, err := validateLength(b)
+		if err != nil {
+			return 0, err
+		}
+		if l < 5 || len(b) < l {
+			return 0, errors.New("embedded bson document is truncated")
+		}
+		return l, validateDocument(b[:l])
+	case 0x05: // binary
+		l, err := validateLength(b)
+		if err != nil {
+			return 0, err
+		}
+		if len(b)-5 < l {
+			return 0, errors.New("bson binary is truncated")
+		}
+		if st := b[4]; st > 0x05 && st < 0x80 {
+			return 0, errors.New("bson binary has an unsupported subtype")
+		} else if st == 0x02 {
+			if l < 4 || int64(int32(binary.LittleEndian.Uint32(b[5:])))+4 != int64(l) {
+				return 0, errors.New("bson binary has an inconsistent inner length")
+			}
+		}
+		return 5 + l, nil
+	case 0x06, 0x0A, 0xFF, 0x7F: // undefined, null, min key, max key
+		return 0, nil
+	case 0x07: // object id
+		return fixed(12)
+	case 0x08: // boolean
+		if len(b) < 1 || b[0] > 1 {
+			return 0, errors.New("bson boolean is malformed")
+		}
+		return 1, nil
+	case 0x0B: // regular expression: two C strings
+		first := indexNul(b)
+		if first < 0 {
+			return 0, errors.New("bson regular expression is not terminated")
+		}
+		second := indexNul(b[first+1:])
+		if second < 0 {
+			return 0, errors.New("bson regular expression is not terminated")
+		}
+		return first + 1 + second + 1, nil
+	case 0x0C: // db pointer
+		n, err := validateString(b)
+		if err != nil {
+			return 0, err
+		}
+		if len(b)-n < 12 {
+			return 0, errors.New("bson value is truncated")
+		}
+		return n + 12, nil
+	case 0x0F: // code with scope
+		l, err := validateLength(b)
+		if err != nil {
+			return 0, err
+		}
+		if l < 14 || len(b) < l {
+			return 0, errors.New("bson code with scope is truncated")
+		}
+		n, err := validateString(b[4:l])
+		if err != nil {
+			return 0, err
+		}
+		return l, validateDocument(b[4+n : l])
+	case 0x10: // int32
+		return fixed(4)
+	case 0x13: // decimal128
+		return fixed(16)
+	default:
+		return 0, errors.Errorf("unknown bson type 0x%x", t)
+	}
+}
